@@ -278,3 +278,57 @@ def field_writers(crate, field):
                         if fl and fl[-1] == field:
                             out.append((b["path"], t.get("sp", "?"), d, i, t))
     return out
+
+
+def struct_value_writers(crate, struct_path, field_names):
+    """Every site that modifies a field of an existing value of the struct `struct_path` in place: an assignment to, or a
+    mutable borrow of, `<place of that struct type>.<field>` (through references and loop variables alike), and mutating
+    method calls on such a place. The type of the place is taken from the local's declared type; the field name must be one of
+    the struct's. -> [(fn, site, field, how)]"""
+    short = struct_path.rsplit("::", 1)[-1]
+
+    def is_struct_ty(ty):
+        t = ty.strip()
+        for _ in range(6):
+            for w in ("&mut ", "&", "std::boxed::Box<", "std::rc::Rc<", "std::sync::Arc<"):
+                if t.startswith(w):
+                    t = t[len(w):]
+                    if w.endswith("<") and t.endswith(">"):
+                        t = t[:-1]
+            t = t.strip()
+        return t == struct_path or t.endswith("::" + short) or t == short
+
+    out = []
+    for b in bodies(crate):
+        B = M.Body(b)
+
+        def hit(place):
+            proj = place.get("proj") or []
+            fs = [p for p in proj if isinstance(p, dict) and "f" in p]
+            if not fs or fs[0]["f"] not in field_names:
+                return None
+            # the first field projection applies to the local's own type (after derefs)
+            first = proj.index(fs[0])
+            if any(isinstance(p, dict) and ("downcast" in p or "index" in p or "cindex" in p) for p in proj[:first]):
+                return None
+            if not is_struct_ty(B.local_ty(place["l"])):
+                return None
+            # a value that is being built right here (`let mut v = S { .. }; v.f = x;`) is not an existing value
+            ds = B.defs().get(place["l"], [])
+            if ds and not B.local_ty(place["l"]).strip().startswith("&") and all(
+                    d[0] == "assign" and d[3].get("k") == "aggregate" and (d[3].get("adt") or "").endswith(short) for d in ds):
+                return None
+            return fs[0]["f"]
+        for i in sorted(B.reach):
+            for st in B.blocks[i]["stmts"]:
+                if st["k"] != "assign":
+                    continue
+                f = hit(st["p"])
+                if f and st["rv"].get("k") != "aggregate":
+                    out.append((b["path"], st.get("sp", "?"), f, "assignment"))
+                rv = st["rv"]
+                if rv.get("k") == "ref" and str(rv.get("bk", "")).startswith("Mut"):
+                    f = hit(rv["p"])
+                    if f:
+                        out.append((b["path"], st.get("sp", "?"), f, "mutable borrow"))
+    return out
